@@ -40,7 +40,21 @@
                     verdict depends on it: the system contracts hold block hashes / counters, never
                     zero.  (With TRUE the two backends disagree on the state root itself: core/state
                     deletes a system contract whose storage became empty during Update, the legacy
-                    state only during Revert.) *)
+                    state only during Revert.)
+   Mechanism switch, revert side (what a RevertHead leaves behind in either encoding):
+     RevertKeeps    a DEFINITION, not a constant (the modules that extend this one need no new
+                    constant): {} = the code as it is - the revert of block n removes, for every key
+                    the reverted diff touched, exactly what the Update of block n logged under n
+                    (new: the entry of every storage write - zero writes and same-value rewrites
+                    included -, nonce, replaced and deployed class hash, the contract record with
+                    its DeployedHeight, the class record with its At, the CASM metadata; legacy:
+                    the old-value logs at n, the deployment height, the class record).  The
+                    expected-violation configurations StateHistory_x_keep_*.cfg override it
+                    (RevertKeeps <- Keep...) with one residue kind each, "the revert leaves the
+                    entry of kind K behind" (KeepKinds below): every one of them must violate
+                    ReadsAgree, i.e. a later historical read on the replacement branch sees the
+                    leftover.  Leftovers never change the commitment (they are outside the tries),
+                    so the revert itself succeeds - the class of C03-8 / C03-6. *)
 EXTENDS Integers, Sequences, FiniteSets, FiniteSetsExt, TLC
 
 CONSTANTS Users,          \* user contract ids (strings)
@@ -68,6 +82,31 @@ None == "none"            \* no class / not deployed
 ZeroCls == "zero"         \* class hash 0x0 of the system contracts
 ASSUME None \notin Classes /\ ZeroCls \notin Classes /\ Users \cap Sys = {} /\ Cairo0 \cap Sierra = {}
 ASSUME L1Txs \subseteq TxIds /\ Vers \subseteq {0, 1}
+
+(* residue kinds: <encoding>:<what the revert of block n fails to remove>
+     n:/l: stor0     history entry at n of a storage write of ZERO (new: the tombstone that hides the
+                     older non-zero entry; legacy: the old value of a cleared slot)
+           storsame  ... of a write of the value the slot already had
+           stor      ... of any other storage write
+           nonce     ... of a nonce entry            rep  ... of a replaced class hash
+           decl      the class record (DeclaredClassDefinition.At = n) of a class declared at n
+     n:dep           the class-hash history entry the new state logs at a deployment
+     n:rec           the contract record (class hash, nonce, DeployedHeight) of a contract deployed at n
+     l:dh            the legacy ContractDeploymentHeight entry of a contract deployed at n
+     c:decl / c:mig  the CASM metadata of a class declared at n / its migrated-at mark *)
+KeepKinds == {"n:stor0", "n:storsame", "n:stor", "n:nonce", "n:rep", "n:dep", "n:rec", "n:decl",
+              "l:stor0", "l:storsame", "l:stor", "l:nonce", "l:rep", "l:dh", "l:decl",
+              "c:decl", "c:mig"}
+RevertKeeps == {}
+Keeps(k) == k \in RevertKeeps
+\* the values the expected-violation configurations substitute: RevertKeeps <- Keep_<encoding>_<kind>
+Keep_n_stor0 == {"n:stor0"}    Keep_n_storsame == {"n:storsame"}    Keep_n_stor == {"n:stor"}
+Keep_n_nonce == {"n:nonce"}    Keep_n_rep == {"n:rep"}              Keep_n_dep == {"n:dep"}
+Keep_n_rec == {"n:rec"}        Keep_n_decl == {"n:decl"}
+Keep_l_stor0 == {"l:stor0"}    Keep_l_storsame == {"l:storsame"}    Keep_l_stor == {"l:stor"}
+Keep_l_nonce == {"l:nonce"}    Keep_l_rep == {"l:rep"}              Keep_l_dh == {"l:dh"}
+Keep_l_decl == {"l:decl"}      Keep_c_decl == {"c:decl"}            Keep_c_mig == {"c:mig"}
+ASSUME RevertKeeps \subseteq KeepKinds
 
 VARIABLES chain,    \* sequence of blocks [ops, ver, txs]; block number n is chain[n+1]
           truth,    \* truth[n+1] = state after block n
@@ -170,8 +209,9 @@ UpdC(C, n, ver, d) ==
      IF c \in DeclSet(d) THEN [decl |-> n, mig |-> 0, v1 |-> (ver = 0)]
      ELSE IF c \in MigSet(d) /\ ver = 1 THEN [C[c] EXCEPT !.mig = n] ELSE C[c]]
 RevC(C, d) ==
-  [c \in Sierra |-> IF c \in DeclSet(d) THEN NoMeta
-                    ELSE IF c \in MigSet(d) THEN [C[c] EXCEPT !.mig = 0] ELSE C[c]]
+  [c \in Sierra |-> IF c \in DeclSet(d) THEN (IF Keeps("c:decl") THEN C[c] ELSE NoMeta)
+                    ELSE IF c \in MigSet(d) THEN (IF Keeps("c:mig") THEN C[c] ELSE [C[c] EXCEPT !.mig = 0])
+                    ELSE C[c]]
 NF == -1                  \* "not found" for integer-valued reads
 NFS == "notfound"         \* "not found" for string-valued reads
 CasmHead(C, c) == IF C[c] = NoMeta THEN NFS ELSE IF ~C[c].v1 \/ C[c].mig > 0 THEN "v2" ELSE "v1"
@@ -205,10 +245,15 @@ UpdL(L, n, ver, d) ==
       nonce |-> [a \in AllC |-> IF NonceOf(d, a) # -1 THEN NonceOf(d, a) ELSE non1[a]],
       stor  |-> [a \in AllC |-> [s \in Slots |-> IF StorOf(d, a, s) # -1 THEN StorOf(d, a, s) ELSE L.stor[a][s]]],
       \* trie.Put returns the old value unless it is a zero write to an absent key: then no log
-      logS  |-> L.logS \cup {[a |-> o.a, s |-> o.s, n |-> n, old |-> L.stor[o.a][o.s]] :
-                               o \in {x \in d : x.k = "stor" /\ ~(x.v = 0 /\ L.stor[x.a][x.s] = 0)}},
-      logN  |-> L.logN \cup {[a |-> o.a, n |-> n, old |-> non1[o.a]] : o \in {x \in d : x.k = "nonce"}},
-      logC  |-> L.logC \cup {[a |-> o.a, n |-> n, old |-> cls1[o.a]] : o \in {x \in d : x.k = "rep"}},
+      \* (a log is a database key (addr[, slot], n): writing it replaces whatever was stored under it.
+      \*  No such entry exists when block n is stored - NoOrphanLogs - unless a revert left one behind.)
+      logS  |-> LET logged == {x \in d : x.k = "stor" /\ ~(x.v = 0 /\ L.stor[x.a][x.s] = 0)} IN
+                {l \in L.logS : ~(l.n = n /\ \E o \in logged : o.a = l.a /\ o.s = l.s)}
+                \cup {[a |-> o.a, s |-> o.s, n |-> n, old |-> L.stor[o.a][o.s]] : o \in logged},
+      logN  |-> {l \in L.logN : ~(l.n = n /\ NonceOf(d, l.a) # -1)}
+                \cup {[a |-> o.a, n |-> n, old |-> non1[o.a]] : o \in {x \in d : x.k = "nonce"}},
+      logC  |-> {l \in L.logC : ~(l.n = n /\ RepOf(d, l.a) # None)}
+                \cup {[a |-> o.a, n |-> n, old |-> cls1[o.a]] : o \in {x \in d : x.k = "rep"}},
       cat   |-> [c \in Classes |-> IF c \in DeclSet(d) /\ L.cat[c] = -1 THEN n ELSE L.cat[c]],
       ct    |-> UpdCt(L.ct, ver, d)]
 
@@ -274,10 +319,19 @@ RevL(L, n, d, oldRoot) ==
              logC  |-> {l \in L.logC : ~(l.n = n /\ RepOf(d, l.a) # None)},
              cat   |-> [c \in Classes |-> IF c \in DeclSet(d) /\ L.cat[c] = n THEN -1 ELSE L.cat[c]],
              ct    |-> RevCt(L.ct, L.cat, n, d)]
+      \* what a mutated revert leaves behind (RevertKeeps = {}: L2k = L2); none of it is committed to
+      keptS(l) == LET v == StorOf(d, l.a, l.s) IN
+                  l.n = n /\ v # -1 /\ (IF v = 0 THEN Keeps("l:stor0") ELSE IF v = l.old THEN Keeps("l:storsame") ELSE Keeps("l:stor"))
+      L2k == [L2 EXCEPT
+                !.logS = @ \cup {l \in L.logS : keptS(l)},
+                !.logN = @ \cup {l \in L.logN : l.n = n /\ NonceOf(d, l.a) # -1 /\ Keeps("l:nonce")},
+                !.logC = @ \cup {l \in L.logC : l.n = n /\ RepOf(d, l.a) # None /\ Keeps("l:rep")},
+                !.dep  = [a \in AllC |-> IF purged(a) /\ Keeps("l:dh") THEN L.dep[a] ELSE @[a]],
+                !.cat  = [c \in Classes |-> IF Keeps("l:decl") THEN L.cat[c] ELSE @[c]]]
   IN IF h4 /\ ~FixH4 THEN [err |-> "h4", db |-> L]
      ELSE IF nolog THEN [err |-> "nolog", db |-> L]
      ELSE IF ProjL(L2) # oldRoot THEN [err |-> "root", db |-> L]
-     ELSE [err |-> "no", db |-> L2]
+     ELSE [err |-> "no", db |-> L2k]
 
 (* would the CURRENT code fail with ErrCheckHeadState here? (independent of FixH4) *)
 H4Shape(L, n, d) == n > 0 /\ \E o \in d : o.k = "stor" /\ FirstAbove(LLogS(L, o.a, o.s), n - 1) = {}
@@ -308,9 +362,13 @@ UpdN(N, n, ver, d) ==
   IN [rec  |-> [a \in AllC |-> IF dropped(a) THEN NoRec ELSE rec1[a]],
       stor |-> stor1,
       \* writeHistory: every diff entry, the class hash also at deployment
-      logS |-> N.logS \cup {[a |-> o.a, s |-> o.s, n |-> n, new |-> o.v] : o \in {x \in d : x.k = "stor"}},
-      logN |-> N.logN \cup {[a |-> o.a, n |-> n, new |-> o.v] : o \in {x \in d : x.k = "nonce"}},
-      logC |-> N.logC \cup {[a |-> o.a, n |-> n, new |-> o.c] : o \in {x \in d : x.k \in {"rep", "dep"}}},
+      \* (entries are database keys (addr[, slot], n): a write replaces a leftover under the same key)
+      logS |-> {l \in N.logS : ~(l.n = n /\ StorOf(d, l.a, l.s) # -1)}
+               \cup {[a |-> o.a, s |-> o.s, n |-> n, new |-> o.v] : o \in {x \in d : x.k = "stor"}},
+      logN |-> {l \in N.logN : ~(l.n = n /\ NonceOf(d, l.a) # -1)}
+               \cup {[a |-> o.a, n |-> n, new |-> o.v] : o \in {x \in d : x.k = "nonce"}},
+      logC |-> {l \in N.logC : ~(l.n = n /\ (RepOf(d, l.a) # None \/ DepOf(d, l.a) # None))}
+               \cup {[a |-> o.a, n |-> n, new |-> o.c] : o \in {x \in d : x.k \in {"rep", "dep"}}},
       cat  |-> [c \in Classes |-> IF c \in DeclSet(d) /\ N.cat[c] = -1 THEN n ELSE N.cat[c]],
       ct   |-> UpdCt(N.ct, ver, d)]
 
@@ -361,9 +419,20 @@ RevN(N, n, d, oldRoot) ==
              logC |-> {l \in N.logC : ~(l.n = n /\ (RepOf(d, l.a) # None \/ DepOf(d, l.a) # None))},
              cat  |-> [c \in Classes |-> IF c \in DeclSet(d) /\ N.cat[c] = n THEN -1 ELSE N.cat[c]],
              ct   |-> RevCt(N.ct, N.cat, n, d)]
+      \* what a mutated deleteHistory / flush leaves behind (RevertKeeps = {}: N2k = N2); the root
+      \* comparison is on the tries, which none of it touches
+      keptS(l) == LET v == StorOf(d, l.a, l.s) IN
+                  l.n = n /\ v # -1 /\ (IF v = 0 THEN Keeps("n:stor0") ELSE IF v = oldS(l.a, l.s) THEN Keeps("n:storsame") ELSE Keeps("n:stor"))
+      N2k == [N2 EXCEPT
+                !.logS = @ \cup {l \in N.logS : keptS(l)},
+                !.logN = @ \cup {l \in N.logN : l.n = n /\ NonceOf(d, l.a) # -1 /\ Keeps("n:nonce")},
+                !.logC = @ \cup {l \in N.logC : l.n = n /\ ((RepOf(d, l.a) # None /\ Keeps("n:rep"))
+                                                           \/ (DepOf(d, l.a) # None /\ Keeps("n:dep")))},
+                !.rec  = [a \in AllC |-> IF DepOf(d, a) # None /\ Keeps("n:rec") THEN rec1[a] ELSE @[a]],
+                !.cat  = [c \in Classes |-> IF Keeps("n:decl") THEN N.cat[c] ELSE @[c]]]
   IN IF missing THEN [err |-> "missing", db |-> N]
      ELSE IF ProjN(N2) # oldRoot THEN [err |-> "root", db |-> N]
-     ELSE [err |-> "no", db |-> N2]
+     ELSE [err |-> "no", db |-> N2k]
 
 --------------------------------------------------------------------------
 NoRd == [on |-> FALSE, a |-> NoA, s |-> NoA, m |-> -1]
